@@ -125,3 +125,39 @@ package workflow
 //@   pure
 //@   requires t != nil
 //@   ensures s == t.status
+
+// ---------------------------------------------------------------------------------------------------------
+// C03 / C11: only CRITICAL task and call roles hand a state on to their parent (so a failing non-critical task never
+// changes the environment), and they hand on the very state they received; an aggregator hands on its own NEW state.
+//@ func (t *taskRole) updateState(s sm.State)
+//@   property C03 C11
+//@   requires t != nil
+//@   ghostvar merged bool = false
+//@   ghostvar forwarded bool = false
+//@   on call (*SafeState).merge : assert arg1 == s && !merged ; merged = true
+//@   on call .updateState : assert merged && arg0 == s && t.Critical && !forwarded ; forwarded = true
+//@   ensures merged
+//@   ensures forwarded == t.Critical
+
+//@ func (t *callRole) updateState(s sm.State)
+//@   property C03 C11
+//@   requires t != nil
+//@   ghostvar merged bool = false
+//@   ghostvar forwarded bool = false
+//@   on call (*SafeState).merge : assert arg1 == s && !merged ; merged = true
+//@   on call .updateState : assert merged && arg0 == s && t.Critical && !forwarded ; forwarded = true
+//@   ensures merged
+//@   ensures forwarded == t.Critical
+
+// (precondition: the caller - a child that just changed to s - leaves the cache as R x o and the children's fold as R x s,
+//  exactly what SafeState.merge needs; see merge)
+//@ func (r *aggregatorRole) updateState(s sm.State)
+//@   property C03 C11
+//@   requires r != nil ==> exists R sm.State, o sm.State :: r.state.state == R.X(o) && foldState(kids(iface(r)), len(kids(iface(r)))) == R.X(s)
+//@   ghostvar merged bool = false
+//@   ghostvar cur sm.State = sm.UNKNOWN
+//@   ghostvar forwarded bool = false
+//@   on call (*SafeState).merge : assert arg1 == s && !merged ; merged = true
+//@   on aftercall (*SafeState).get : cur = result
+//@   on call .updateState : assert merged && arg0 == cur && !forwarded ; forwarded = true
+//@   ensures r != nil ==> merged
